@@ -1635,6 +1635,21 @@ class Evaluator(object):
         if name not in ("collections.OrderedDict", "builtins.dict") or len(args) != 1 or kw:
             return None
         z = args[0]
+        pairs = None
+        if z.op in ("list", "tuple") and z.a and all(p_.op == "tuple" and len(p_.a) == 2 and p_.a[0].op == "const" and isinstance(p_.a[0].a[0], str) for p_ in z.a):
+            pairs = [(p_.a[0], p_.a[1]) for p_ in z.a]  # OrderedDict([(k1, v1), ...]) - a display, or an unrolled generator
+        elif z.op == "dict" and z.a and all(kv.op == "tuple" and len(kv.a) == 2 and kv.a[0].op == "const" and isinstance(kv.a[0].a[0], str) for kv in z.a):
+            pairs = [(kv.a[0], kv.a[1]) for kv in z.a]  # OrderedDict({k1: v1, ...})
+        if pairs is not None:
+            self.n_anon = getattr(self, "n_anon", 0) + 1
+            root = "@dict%d" % self.n_anon
+            cur = self.apply(fn, (), ())
+            self.site("call", node, callee=name, fn=fn, base=None, args=(), kw=(), term=cur, via_filter=False, method=None)
+            for k, v in pairs:
+                ms = self.site("mutate", node, how="setitem", old=cur, root=root, key=k, val=v, target=None)
+                cur = tm.upd(cur, "setitem", k, v)
+                ms.d["new"] = cur
+            return cur
         if not (z.op == "call" and tm.callee_name(z.a[0]) == "builtins.zip" and len(z.a[1]) == 2 and not z.a[2]):
             return None
         K, V = z.a[1]
